@@ -34,6 +34,10 @@ pub struct World {
     /// E2 watcher: heights passed to new_block whose call has not completed yet.
     pub comp_pending_blocks: Vec<u32>,
     pub catchup: Option<(u32, u64)>,
+    /// The current step delivers an undecodable block_added notification.
+    pub step_malformed_notification: bool,
+    /// Undecodable notifications written to the current lifetime so far.
+    pub malformed_notifications_sent: u64,
     /// Kinds of the operation executed in the current step.
     pub op_kind: &'static str,
     /// Were only non-trampoline HTLCs delivered by the current op?
